@@ -434,13 +434,20 @@ var (
 
 var cmdGVR = bus.SchemeGroupVersion.WithResource("commands")
 
+// lastSeen: per Delete call of the last controller run, the number of requests already enqueued
+var lastSeen []int64
+
 func runCtl(in []int64) []int64 {
 	ctrl, present, G, R, ns, name, action := in[0], in[1] != 0, int(in[2]), int(in[3]), in[4], in[5], in[6]
-	sched := in[8 : 8+in[7]]
+	mx, n2 := int(in[7]), int(in[8])
+	sched := in[10 : 10+in[9]]
+	if ctrl == 2 && mx >= 0 && G != 1 {
+		panic("a finite retry budget is only deterministic with one worker")
+	}
 	vc := vcfake.NewSimpleClientset()
 	cmdNS := fmt.Sprintf("ns%d", ns)
 	cmd := &bus.Command{
-		ObjectMeta: metav1.ObjectMeta{Namespace: cmdNS, Name: "cmd-x"},
+		ObjectMeta: metav1.ObjectMeta{Namespace: cmdNS, Name: "cmd-x", UID: "uid-x"},
 		Action:     string(actions[action]),
 	}
 	if ctrl == 1 {
@@ -453,6 +460,41 @@ func runCtl(in []int64) []int64 {
 			panic(err)
 		}
 	}
+	var process func() bool
+	var pending func() int
+	var deliver func(*bus.Command)
+	// requests enqueued so far (read inside the Delete reactor: "triggered so far")
+	var reqs []apis.Request
+	var triggered func() int
+	if ctrl == 1 {
+		if jobCtl == nil {
+			jobCtl = jc.VerifCmdNewController(vc, kubefake.NewSimpleClientset(), 3)
+		} else {
+			jobCtl.VerifCmdReset(vc)
+		}
+		process, pending, deliver = jobCtl.VerifCmdProcessNext, jobCtl.VerifCmdPending, jobCtl.VerifCmdDeliver
+		var rmu sync.Mutex
+		triggered = func() int {
+			rmu.Lock()
+			defer rmu.Unlock()
+			reqs = append(reqs, jobCtl.VerifCmdRequests()...)
+			return len(reqs)
+		}
+	} else {
+		if queueCtl == nil {
+			queueCtl = qc.NewVerifController(vc, kubefake.NewSimpleClientset(), mx)
+		} else {
+			queueCtl.Reset(vc, kubefake.NewSimpleClientset(), mx)
+		}
+		process, pending = queueCtl.ProcessNextCommand, queueCtl.CQ.Len
+		deliver = func(c *bus.Command) {
+			if !qc.IsQueueReference(c.TargetObject) {
+				panic("queue command filtered out")
+			}
+			queueCtl.AddCommand(c)
+		}
+		triggered = func() int { return queueCtl.Q.Len() }
+	}
 	// the reactor runs under the fake client's lock: its call order is the linearisation
 	var outs []int64
 	calls := 0
@@ -463,72 +505,62 @@ func runCtl(in []int64) []int64 {
 			f = sched[calls]
 		}
 		calls++
+		seen := int64(triggered())
 		switch f {
 		case 1:
-			outs = append(outs, 3)
+			outs = append(outs, 3, seen)
 			return true, nil, errors.New("injected: the server is unavailable")
 		case 2:
 			vc.Tracker().Delete(cmdGVR, da.GetNamespace(), da.GetName())
-			outs = append(outs, 4)
+			outs = append(outs, 4, seen)
 			return true, nil, errors.New("injected: timeout after the delete was applied")
 		}
 		err := vc.Tracker().Delete(cmdGVR, da.GetNamespace(), da.GetName())
 		switch {
 		case err == nil:
-			outs = append(outs, 1)
+			outs = append(outs, 1, seen)
 		case apierrors.IsNotFound(err):
-			outs = append(outs, 2)
+			outs = append(outs, 2, seen)
 		default:
 			panic("unexpected tracker error: " + err.Error())
 		}
 		return true, nil, err
 	})
-	var process func() bool
-	var pending func() int
-	if ctrl == 1 {
-		if jobCtl == nil {
-			jobCtl = jc.VerifCmdNewController(vc, kubefake.NewSimpleClientset(), 3)
-		} else {
-			jobCtl.VerifCmdReset(vc)
+	// a batch of deliveries (distinct object copies), drained by G workers
+	batch := func(n int) {
+		for i := 0; i < n; i++ {
+			deliver(cmd.DeepCopy())
 		}
-		for i := 0; i < G*R; i++ {
-			jobCtl.VerifCmdDeliver(cmd.DeepCopy())
+		var wg sync.WaitGroup
+		for g := 0; g < G; g++ {
+			wg.Add(1)
+			go func() {
+				defer wg.Done()
+				for process() {
+				}
+			}()
 		}
-		process, pending = jobCtl.VerifCmdProcessNext, jobCtl.VerifCmdPending
-	} else {
-		if queueCtl == nil {
-			queueCtl = qc.NewVerifController(vc, kubefake.NewSimpleClientset(), -1)
-		} else {
-			queueCtl.Reset(vc, kubefake.NewSimpleClientset(), -1)
+		wg.Wait()
+		for pending() > 0 { // re-deliveries that arrived after a worker saw an empty queue
+			process()
 		}
-		for i := 0; i < G*R; i++ {
-			c := cmd.DeepCopy()
-			if !qc.IsQueueReference(c.TargetObject) {
-				panic("queue command filtered out")
-			}
-			queueCtl.AddCommand(c)
-		}
-		process, pending = queueCtl.ProcessNextCommand, queueCtl.CQ.Len
 	}
-	var wg sync.WaitGroup
-	for g := 0; g < G; g++ {
-		wg.Add(1)
-		go func() {
-			defer wg.Done()
-			for process() {
-			}
-		}()
+	batch(G * R)
+	batch(n2) // informer relist / controller restart: the Command (if still there) is delivered again
+	out := []int64{int64(len(outs) / 2)}
+	// what each Delete call saw enqueued depends on the interleaving when workers race: it
+	// goes to the law (lastSeen) but is not compared with the sequential model
+	lastSeen = nil
+	for k := 0; k+1 < len(outs); k += 2 {
+		lastSeen = append(lastSeen, outs[k+1])
+		if G > 1 {
+			outs[k+1] = 0
+		}
 	}
-	wg.Wait()
-	for pending() > 0 { // re-deliveries that arrived after a worker saw an empty queue
-		process()
-	}
-	out := []int64{int64(len(outs))}
 	out = append(out, outs...)
 	out = append(out, -101)
-	var reqs []apis.Request
 	if ctrl == 1 {
-		reqs = jobCtl.VerifCmdRequests()
+		triggered()
 	} else {
 		for _, r := range queueCtl.Q.Items() {
 			reqs = append(reqs, *r)
@@ -550,7 +582,7 @@ func runCtl(in []int64) []int64 {
 	}
 	_, err := vc.BusV1alpha1().Commands(cmdNS).Get(ctx, "cmd-x", metav1.GetOptions{})
 	out = append(out, vh.B(err == nil))
-	retried := len(outs) - G*R
+	retried := len(outs)/2 - G*R - n2
 	if ctrl == 1 && jobCtl.VerifCmdRetried() != retried {
 		panic(fmt.Sprintf("job controller: %d AddRateLimited calls for %d extra Delete calls", jobCtl.VerifCmdRetried(), retried))
 	}
@@ -571,6 +603,12 @@ func run(sel int, in []int64) []int64 {
 }
 
 func laws(sel int, in, got []int64, law func(lsel int, lin []int64, sig string)) {
+	if sel == 2 { // put the observed "enqueued so far" back into the Delete log
+		got = append([]int64{}, got...)
+		for k := range lastSeen {
+			got[2+2*k] = lastSeen[k]
+		}
+	}
 	lin := append(append([]int64{}, in...), got...)
 	law(100+sel, lin, "")
 }
@@ -593,31 +631,62 @@ func gen(rng *vh.Rng, n int, emit func(id string, sel int, in []int64, kind stri
 		if ctrl == 2 {
 			action = int64(r.Range(3, 4))
 		}
-		L := 0
-		switch r.Intn(4) {
-		case 1:
-			L = r.Range(1, 3)
-		case 2:
-			L = r.Range(1, G*R+2)
+		// retry budget: unlimited for racing workers; small budgets (one worker, FIFO) with
+		// runs of at least maxRequeueNum+1 failed Deletes, then a relist with the Delete healed
+		mx := -1
+		n2 := 0
+		if r.Chance(1, 3) {
+			n2 = r.Range(1, 2)
 		}
-		in := []int64{ctrl, present, int64(G), int64(R), int64(r.Range(1, 4)), int64(r.Range(1, 50)), action, int64(L)}
+		var sched []int64
+		exhaust := i%4 >= 2
+		if exhaust {
+			mx = r.Range(0, 3)
+			G = 1
+			R = r.Range(1, 2)
+			n2 = r.Range(1, 2)
+			run := (mx+1)*R + r.Range(0, 2)
+			if r.Chance(1, 5) {
+				run = r.Range(0, mx+1) // not enough failures to exhaust the budget
+			}
+			for k := 0; k < run; k++ {
+				sched = append(sched, int64(vh.Pick(r, []int{1, 1, 1, 2})))
+			}
+			if r.Chance(1, 3) {
+				sched = append(sched, 0, 1)
+			}
+		} else {
+			L := 0
+			switch r.Intn(4) {
+			case 1:
+				L = r.Range(1, 3)
+			case 2:
+				L = r.Range(1, G*R+2)
+			}
+			for k := 0; k < L; k++ {
+				sched = append(sched, int64(vh.Pick(r, []int{0, 1, 1, 2})))
+			}
+		}
 		nf := 0
-		for k := 0; k < L; k++ {
-			f := int64(vh.Pick(r, []int{0, 1, 1, 2}))
+		for _, f := range sched {
 			if f != 0 {
 				nf++
 			}
-			in = append(in, f)
 		}
+		in := []int64{ctrl, present, int64(G), int64(R), int64(r.Range(1, 4)), int64(r.Range(1, 50)), action, int64(mx), int64(n2), int64(len(sched))}
+		in = append(in, sched...)
 		kind := "job-controller"
 		if ctrl == 2 {
 			kind = "queue-controller"
 		}
-		if nf > 0 {
+		switch {
+		case exhaust:
+			kind += "/budget-exhausted+relist"
+		case nf > 0:
 			kind += "/faults"
 		}
-		emit(fmt.Sprintf("ctl-%d", i), 2, in, kind, G*R >= 2 && present == 1,
-			map[string]any{"workers": G, "deliveries_each": R, "faults": nf})
+		emit(fmt.Sprintf("ctl-%d", i), 2, in, kind, (G*R+n2 >= 2 && present == 1) || exhaust,
+			map[string]any{"workers": G, "deliveries_each": R, "faults": nf, "maxRequeueNum": mx, "redeliveries": n2})
 	}
 }
 
